@@ -63,3 +63,47 @@ Inductive sublist {A} : list A -> list A -> Prop :=
 | sub_nil : sublist [] []
 | sub_skip x l l' : sublist l l' -> sublist l (x :: l')
 | sub_keep x l l' : sublist l l' -> sublist (x :: l) (x :: l').
+
+(* ---- how much fuel a reading needs (Marshal/FuelProofs.v: that much fuel gives the result any larger
+   fuel gives).  zt / rt: for each named type, the fuel zero_enc / reenc (beyond six units per level of
+   the tree read) needs below a reference to it; oc: the same for the payload of schema.Object.  The
+   tables for the generated environment are computed by iteration in Marshal/EnvProofs.v and checked by
+   cost_okb. ---- *)
+Definition lookup_nat (n : bytes) (tab : list (bytes * nat)) : nat :=
+  match assoc n tab with Some k => k | None => O end.
+
+Fixpoint zcost (zt : list (bytes * nat)) (t : ty) : nat :=
+  match t with
+  | TyStruct _ fs =>
+    S ((fix go (l : list field) : nat :=
+          match l with
+          | [] => O
+          | fd :: r => Nat.max (match fd with mkF _ _ t' => zcost zt t' end) (go r)
+          end) fs)
+  | TyRef n => S (lookup_nat n zt)
+  | _ => 1%nat
+  end.
+
+Fixpoint rcost (zt rt : list (bytes * nat)) (oc : nat) (t : ty) : nat :=
+  match t with
+  | TyLeaf _ | TyAny => 1%nat
+  | TyPtr t' => S (rcost zt rt oc t')
+  | TySlice t' | TyMap t' => S (rcost zt rt oc t' - 6)
+  | TyStruct _ fs =>
+    S (Nat.max (zcost zt t)
+         ((fix go (l : list field) : nat :=
+             match l with
+             | [] => O
+             | fd :: r => Nat.max (match fd with mkF _ _ t' => Nat.max (rcost zt rt oc t' - 6) (zcost zt t') end) (go r)
+             end) fs))
+  | TyRef n => S (lookup_nat n rt)
+  | TyObject => S oc
+  end.
+
+Definition is_object_ty (t : ty) : bool := match t with TyObject => true | _ => false end.
+
+(* (schema.Object registered as the payload of schema.Object is an error of the reader, not a recursion) *)
+Definition cost_okb (E : env) (zt rt : list (bytes * nat)) (oc : nat) : bool :=
+  forallb (fun kt => Nat.leb (zcost zt (snd kt)) (lookup_nat (fst kt) zt)
+                     && Nat.leb (rcost zt rt oc (snd kt)) (lookup_nat (fst kt) rt)) (e_types E)
+  && forallb (fun kt => is_object_ty (snd kt) || Nat.leb (rcost zt rt oc (snd kt)) oc) (e_schemas E).
